@@ -205,6 +205,24 @@ impl Prop for C19 {
             }
             Ok(Ok(p)) => p,
         };
+        // one case in six: a clone of the library exports to the same message
+        if cx.n % 6 == 4 {
+            match guard(|| ProtoExporter::export(&g.lib.clone())) {
+                Ok(Ok(p2)) if p2 == p => cx.count("clone_exports_to_the_same_message"),
+                Ok(Ok(p2)) => {
+                    cx.violation("export-of-a-clone-differs", json!({"cells": p.cells.iter().map(|c| c.name.chars().take(40).collect::<String>()).collect::<Vec<_>>(), "cells_of_clone": p2.cells.iter().map(|c| c.name.chars().take(40).collect::<String>()).collect::<Vec<_>>()}));
+                    return;
+                }
+                Ok(Err(e)) => {
+                    cx.violation("export-of-a-clone-fails", json!({"error": format!("{:?}", e).chars().take(300).collect::<String>()}));
+                    return;
+                }
+                Err(c) => {
+                    cx.violation(&format!("export-panic|clone|{}|{}", c.site(), c.norm_msg()), json!({"panic": c.msg}));
+                    return;
+                }
+            }
+        }
         match cx.gen.as_str() {
             "roundtrip" => {
                 cx.eval();
